@@ -13,7 +13,7 @@ lines.append("Two catalogues, both run by `tools/sensitivity.py mutants [PID ...
              "`VERIF_REPO=<scratch> ./check <PID> quick`, exit 1 with a VIOLATION line expected; outcome of the last run in "
              "`mutants/RESULTS.json`):\n")
 lines.append("* `mutants/<ID>/*.diff` - hand-written while building each check (equivalent mutants were deleted, see section 6).")
-lines.append("* `seeded/<ID>[b-e]/` - written by independent sub-agents that were given only the property text and a scratch git "
+lines.append("* `seeded/<ID>[b-g]/` - written by independent sub-agents that were given only the property text and a scratch git "
              "worktree (nothing from /verif) and asked for a change that needs something specific to manifest; every one was "
              "re-verified by `tools/import_seed.py` (repository suite still 146 passed with the change; the agent's `demo.py` exits 1 "
              "with it and 0 without) before it was kept.  `meta.json` records what it needs to manifest, what was run, and - when "
@@ -24,7 +24,8 @@ for mp in sorted(glob.glob(os.path.join(ROOT, "seeded", "*", "meta.json"))):
     seeds[os.path.basename(os.path.dirname(mp))] = m
 tot = len(seeds)
 missed_first = [k for k, m in seeds.items() if m.get("first_attempt") == "missed"]
-lines.append(f"Seeded changes: {tot} in five rounds (a-e); {tot - len(missed_first)} were caught by the check as it stood when the change "
+rounds = sorted({(k[3:] or "a") for k in seeds})
+lines.append(f"Seeded changes: {tot} in {len(rounds)} rounds ({rounds[0]}-{rounds[-1]}); {tot - len(missed_first)} were caught by the check as it stood when the change "
              f"arrived, {len(missed_first)} were missed at first and led to the strengthening listed below; all are caught now "
              f"unless the table says otherwise.  The misses had a common shape - legal but unusual *usage* the generators "
              f"did not produce (inherited or deferred hooks, future-returning acks, redirected kickers, same-named shared tasks, "
